@@ -21,7 +21,8 @@ Parts (all deciding steps are complete enumerations of the stated spaces):
      child processes with PYTHONHASHSEED = 1..7 (thorough 1..31) and compared with the in-process run (the runner
      pins PYTHONHASHSEED=0).
   H  history (B must get the text it gets when decompiled alone in a fresh process): ~60 method corpus.
-     chains: for every A a fresh process and freshly parsed DEX + Analysis, then A B1 A B2 A B3 ...: every ordered
+     chains: a fresh child process per shard (4 A's); for every A freshly parsed DEX + Analysis, then
+     A B1 A B2 A B3 ...: every ordered
      pair (A,B) and (B,A) occurs adjacently (histories share the objects, as DvMachine/DecompilerDAD users do);
      exact: fresh DEX + Analysis objects for every single ordered pair (quick: all pairs of the small-file
      methods, whose files parse in milliseconds; thorough: all pairs of the corpus and all ordered triples of
@@ -54,8 +55,10 @@ ASSUMPTIONS = [
     "explored assignments: default, the stated global family, all single transpositions of really-hashed objects "
     "(pairs of transpositions up to the stated object bound) - not all n! layouts",
     "PYTHONHASHSEED only over the enumerated seeds",
-    "history part: processes forked from a pristine server that parsed the DEX and built Analysis but never "
-    "decompiled stand for 'fresh process'; replay uses really fresh processes",
+    "history part: histories run one after another inside one child process on freshly parsed objects; that they "
+    "start from a pristine process state is supported by the fingerprint of all androguard.decompiler module/class "
+    "state (counted in evidence) - interpreter-internal state is not fingerprinted; replay uses really fresh processes",
+    "the tree under VERIF_REPO must not change while the check runs (a change shows up as HARNESS-ERROR)",
     "DEX parsing / Analysis construction is taken as deterministic (not judged here)",
     "get_ast()/get_source_ext() are not judged, only get_source() text",
 ]
